@@ -1327,8 +1327,12 @@ class Scene(Geometry3D):
                     # if our scene is 2D only scale in 2D
                     result.geometry[geometry].apply_transform(scale_2D)
                 else:
-                    # otherwise apply the full transform
-                    result.geometry[geometry].apply_transform(new_geom)
+                    # otherwise apply the full transform: `scale_3D` also
+                    # scaled the homogeneous `[3, 3]` which a mesh ignores
+                    # but a primitive multiplies into its own transform
+                    applied = new_geom.copy()
+                    applied[3] = [0.0, 0.0, 0.0, 1.0]
+                    result.geometry[geometry].apply_transform(applied)
 
                 for node, T in zip(nodes[group], transforms[group]):
                     # generate the new transforms
